@@ -92,12 +92,12 @@ def sStep (w : Nat) (setv : SB → SB) (op : SOp SB) (s : SVec SB) : List Rat ×
   let (vals, s') := runScript (sFill w) (sZero w) setv [op] s
   (vals.flatten, s')
 
-def leafOf (kind : String) : Option (List Rat → Option Rat) :=
+def kindOf (kind : String) : Option SVec.ExtKind :=
   match kind with
-  | "maxabs" => some maxAbsElemK
-  | "minabs" => some minAbsElemK
-  | "max" => some maxElemK
-  | "min" => some minElemK
+  | "maxabs" => some .maxAbs
+  | "minabs" => some .minAbs
+  | "max" => some .max
+  | "min" => some .min
   | _ => none
 
 def sparseP (b : Nat) : P String := do
@@ -110,11 +110,10 @@ def sparseP (b : Nat) : P String := do
   let s : SVec SB := (runScript (sFill w) (sZero w) id (writes.map fun p => SOp.write p.1 p.2) (SVec.empty size)).2
   if sub == "get" then pure (sReadout w [] s)
   else if sub == "format" then pure (sReadout w [] (sStep w (sSet fv) SOp.format s).2)
-  else match leafOf sub with
-    | some leaf =>
-      match s.extremeAsCoded leaf id w with
-      | (some v, s') => pure (sReadout w [v] s')
-      | (none, _) => pure "UNDEF"
+  else match kindOf sub with
+    | some kind =>
+      let (v, s') := s.extremeCoded kind id w
+      pure (sReadout w [v] s')
     | none => throw s!"unknown sparse op {sub}"
 
 /-- `svs`: a script of member calls -/
@@ -145,11 +144,10 @@ def scriptP : P String := do
         go k (res ++ [(u : Rat)]) s'
       | "m" => do
         let kind ← tok
-        match leafOf kind with
-        | some leaf =>
-          match s.extremeAsCoded leaf id w with
-          | (some v, s') => go k (res ++ [v]) s'
-          | (none, _) => pure none
+        match kindOf kind with
+        | some kd =>
+          let (v, s') := s.extremeCoded kd id w
+          go k (res ++ [v]) s'
         | none => throw s!"unknown member {kind}"
       | _ => throw s!"unknown script step {what}"
   match (← go n [] (SVec.empty size)) with
